@@ -411,7 +411,9 @@ inline void check_geocoords_reset(const std::string& s, bool centerp, bool longf
   if (Z.invalid) { k.event("reset: INV zone accepted"); return; }
   if (g.Zone() != Z.zone) k.viol("oracle:C10/geocoords-reset/utm-zone-value", cls, det().i("zone", g.Zone()).i("want", Z.zone));
   if (E.st == rd::ACCEPT && E.sp == rd::FINITE && !vh::same_bits(g.Easting(), E.v)) k.viol("oracle:C10/geocoords-reset/utm-easting-value", cls, det().f("easting", g.Easting()).f("want", E.v));
-  if (N.st == rd::ACCEPT && N.sp == rd::FINITE) {
+  // (the hemisphere is fixed from the latitude of the point: with a non-finite easting there is no latitude and hence no rule to
+  //  judge -- "30n 1.#IND -701405" was a false alarm of this monitor in the thorough tier's fuzz run)
+  if (N.st == rd::ACCEPT && N.sp == rd::FINITE && E.st == rd::ACCEPT && E.sp == rd::FINITE) {
     // hemisphere rule read off the text: y = northing - false northing; y > 0 north, y < 0 south, y == 0 keeps the
     // hemisphere token (either hemisphere is allowed on the equator).  UPS (zone 0) never changes hemisphere.
     double n = g.Northing();
